@@ -24,6 +24,7 @@ import asyncio
 import gc
 import pathlib
 import random
+import re
 import time
 
 from checks import common
@@ -174,6 +175,10 @@ def run_server_case(case):
     obs = scenario.run_scenario(sc, inspect=inspect)
     gc.collect()
     world = obs.world
+    if obs.outcome == "spin" and common.spin_site(world):
+        fn, where = common.spin_site(world)
+        viol.append({"clause": "event-loop-frozen", "subject": f"server:{fn}", "detail": f"after the hostile input {_short(case)} a single callback never returned to the event loop (spinning in {fn} at {where}): the whole server is frozen"})
+        return _res(world, case, viol, {"mode.server": 1, "probe.spin_detected": 1}, world.digest(repr(case)))
     if obs.outcome not in ("ok", "deadlock", "budget"):
         raise common.HarnessError(f"scenario failed: {obs.outcome}: {obs.error!r}")
     if obs.outcome == "deadlock":
@@ -199,8 +204,19 @@ WIN_LINES = ["11/14/2023  10:13 PM    <DIR>          folder", "01/02/2003  01:02
 MLSX_LINES = ["Size=12;Create=20010101000000;Modify=20010101000000;Type=file; a.txt", "Size=0;Modify=20231114221320;Type=dir; sub", "type=cdir; .", "type=pdir; ..", "Type=dir; ..", "Size=5;Type=file; x y"]
 
 
+_NUM = re.compile(rb"\d+")
+
+
 def mutate(rnd, line):
     b = bytearray(line.encode("utf-8"))
+    if rnd.random() < 0.25:
+        # grammar-aware: one numeric field (size, day, year, hour, minute, link count, time fact)
+        # becomes out of range - by a little, or by far more than a machine word holds
+        fields = list(_NUM.finditer(bytes(b)))
+        if fields:
+            m = rnd.choice(fields)
+            rep = rnd.choice([b"0", b"00", b"99", b"-1", b"4294967296", b"9" * 10, b"2" * 20, b"1" * 40, m.group() * 6, b"9" * 400])
+            b[m.start() : m.end()] = rep
     for _ in range(rnd.randint(0, 3)):
         k = rnd.random()
         if not b:
@@ -464,6 +480,9 @@ def run_client_case(case):
             viol.append({"clause": "client-hangs", "subject": f"{kind}:deadlock", "detail": f"client and fake server wait for each other for ever ({_short(case)})"})
         elif world.outcome == "budget":
             viol.append({"clause": "client-loops", "subject": f"{kind}:budget", "detail": f"step budget exhausted ({_short(case)})"})
+        elif world.outcome == "spin" and common.spin_site(world):
+            fn, where = common.spin_site(world)
+            viol.append({"clause": "client-loops", "subject": f"{kind}:spin", "detail": f"the client never returned to the event loop (spinning in {fn} at {where}) ({_short(case)})"})
         elif world.outcome != "ok":
             raise common.HarnessError(f"scenario failed: {world.outcome}: {world.error!r}")
         return _res(world, case, viol, {"mode.client": 1, f"kind.{kind}": 1}, world.digest(repr(case)))
@@ -551,6 +570,15 @@ def main(argv=None):
     n = 1500 if quick else 200000
     with common.Pool() as pool:
         def gen():
+            # fixed grid, always run: an over-long control line (with / without its terminator)
+            # followed by every way the connection can go on or end
+            g = 0
+            for nbytes in (65535, 65536, 65537, 70000, 200000):
+                for term in ("\r\n", ""):
+                    for end in ("fin", "rst", "hold", "fin-midline"):
+                        for login_first in (False, True):
+                            g += 1
+                            yield {"mode": "server", "seed": a.seed * 1000 + g, "hostile": ["CWD " + "A" * nbytes + term] + (["PWD\r\n"] if g % 3 == 0 else []), "end": end, "login_first": login_first, "scripts": ["idle" if g % 2 else "stor_retr"]}
             for i in range(n):
                 yield gen_client_case(a.seed * 1_000_000 + i)
                 yield gen_client_case(a.seed * 1_000_000 + n + i)
